@@ -54,6 +54,7 @@ def ghost_contracts():
         def f(w, st, args):
             recv = strip_ref(args[0])
             if recv == ("arg", 1, "self"):
+                bump(st, ("ghost", "selfadv"), args[i])
                 return
             bump(st, g_adv(recv), args[i])
         return f
@@ -228,9 +229,9 @@ def check_effects(chk, F, specs, effects, rule, fs):
                     if g is None:
                         ok = False
                     elif isinstance(g, tuple) and g and g[0] == "or":
-                        ok = any(all(lp.entails(base, c) for c in alt) for alt in g[1:])
+                        ok = any(all(lp.entails(num.close(base, alt), c) for c in alt) for alt in g[1:])
                     else:
-                        ok = all(lp.entails(base, c) for c in g)
+                        ok = all(lp.entails(num.close(base, g), c) for c in g)
                     r = results.setdefault(text, {"ok": True, "path": None})
                     if not ok and r["ok"]:
                         r["ok"] = False
